@@ -1,0 +1,18 @@
+//go:build verif
+
+package concept
+
+// Contracts checked by /verif (vcgo). Comment-only: no executable code.
+// C18: the word counts of the concept report sum to the number of words in the method names.
+// A name is cut into pieces by strcase.ToDelimited (external, deterministic); a piece is a word unless it is a number or blank.
+
+//@ spec Pieces(name string) []string := Split(ExtCall("github.com/iancoleman/strcase.ToDelimited", name, 46), ".")
+//@ spec IsWord(w string) bool := !ReMatch(w, "^[0-9]+$") && TrimSpace(w) != ""
+//@ spec rec NW(ps []string, n int) int := n <= 0 ? 0 : NW(ps, n - 1) + (IsWord(ps[n - 1]) ? 1 : 0)
+//@ spec rec TotalWords(names []string, n int) int := n <= 0 ? 0 : TotalWords(names, n - 1) + NW(Pieces(names[n - 1]), len(Pieces(names[n - 1])))
+
+//@ func SegmentCamelcase
+//@ modifies strMap
+//@ ensures result != nil && SumVals(result) == TotalWords(methodsName, len(methodsName))
+//@ loop 1 invariant strMap != nil && SumVals(strMap) == TotalWords(methodsName, #i)
+//@ loop 2 invariant strMap != nil && SumVals(strMap) == TotalWords(methodsName, #i1) + NW(split, #i)
